@@ -14,6 +14,7 @@ import (
 
 	"github.com/renbou/grpcbridge/routing"
 	"verif/harness/c06"
+	"verif/harness/c11"
 	"verif/harness/common"
 )
 
@@ -32,6 +33,10 @@ func (Area) Exec(input string) string {
 		return fmt.Sprintf("1 %s %s", common.HexS(svc), common.HexS(m))
 	case "hist":
 		return c06.ExecHist(input)
+	case "stress":
+		// uncontrolled contested-claim stress of the C11 slice (real goroutines, no yield points): the earlier
+		// claimant must keep a contested service at EVERY instant, not only between operations
+		return c11.Area{}.Exec(input)
 	}
 	return "BADOP"
 }
@@ -102,6 +107,13 @@ func claimMut(r *rand.Rand, svcPool []string, name string, prev *c06.DescSpec, o
 
 func (Area) Gen(r *rand.Rand, tier string, emit func(string)) {
 	parse := func(s string) { emit("parse " + common.HexS(s)) }
+	claimMs, claimN := 300, 2
+	if tier == "thorough" {
+		claimMs, claimN = 1500, 4
+	}
+	for i := 0; i < claimN; i++ {
+		emit(fmt.Sprintf("stress claim %d %d", r.Int63n(1<<30), claimMs))
+	}
 	// exhaustive: every string of length ≤ 5 (quick) / ≤ 7 (thorough) over {/ . a % 2 F}
 	ex := []byte("/.a%2F")
 	maxLen := 5
